@@ -11,6 +11,8 @@ F-B  Assembly.moveTo(free cell) leaves the entry of the OLD cell in childrenByLo
      assembly for a cell that is empty.
 F-C  Core.add of an assembly whose name is already used by another assembly of the core raises RuntimeError AFTER the
      assembly was appended, moved and entered in childrenByLocator: a refused operation changes the core.
+F-E  Core.add(a, loc) with a location outside the represented third of a third-core model raises LookupError AFTER the
+     assembly was appended to the children: the refused assembly is a child of the core that no location lookup lists.
 F-D  (known finding F164/F165) tracked discharge without a pool leaves the names of an assembly that is nowhere.
 """
 import numpy as np
@@ -128,6 +130,8 @@ def ringpos_contract(self, indices):
 STUBS = {"armi.reactor.composites:ArmiObject.getFissileMass": "fissile_contract",
          "armi.reactor.composites:ArmiObject.getMaxParam": "maxparam_contract",
          "armi.reactor.grids.hexagonal:HexGrid.getRingPos": "ringpos_contract"}
+STUBS_REAL_RINGS = {"armi.reactor.composites:ArmiObject.getFissileMass": "fissile_contract",
+                    "armi.reactor.composites:ArmiObject.getMaxParam": "maxparam_contract"}  # where the ring POSITION matters (first-third test)
 OVERRIDES = {"armi.reactor.cores:parameters": "ParametersStub"}
 
 
@@ -158,9 +162,9 @@ def assembly(num, nBlocks, label, stationary=()):
     return a
 
 
-def world(track, withPool, numRings, maxAssemNum):
+def world(track, withPool, numRings, maxAssemNum, symmetry="full"):
     """an empty core in a reactor (with or without a pool); returns (core, reactor, pool)"""
-    g = hexgrid("full")
+    g = hexgrid(symmetry)
     pool = new(PoolStub, kids=[], parent=None)
     r = new(Reactor, name="r", p=new(PMap, time=12.5, cycle=3, maxAssemNum=maxAssemNum), excore=new(ExcoreStub, items=({"sfp": pool} if withPool else {})),
             parent=None, _children=[])
@@ -314,4 +318,21 @@ def tracked_discharge_without_a_pool_forgets_the_names(n: int, i1: int, j1: int,
     core.removeAssembly(a1, discharge=True)
     assert a1.parent is None
     assert "A0001" not in core.assembliesByName and "B0001-000" not in core.blocksByName, "an assembly that is neither in the core nor in a pool is not returned by name"
+    assert inv(core, pool)
+
+
+# ----------------------------------------------------------------------------- F-E
+@lemma(gen=dict(GEN, i=(-4, 4), j=(-4, 4)), stubs=STUBS_REAL_RINGS, overrides=OVERRIDES, timeout=60)
+def add_outside_the_represented_third_is_refused_and_changes_nothing(i: int, j: int):
+    core, r, pool = world(False, True, 9, 9, "third periodic")
+    a = assembly(7, 1, "LoadQueue")
+    target = core.spatialGrid[i, j, 0]
+    assume(not core.spatialGrid.isInFirstThird(target, includeTopEdge=True))
+    try:
+        core.add(a, target)
+        refused = False
+    except LookupError:
+        refused = True
+    assert refused, "a location outside the represented domain is refused"
+    assert len(core._children) == 0 and a.parent is None, "and the core is unchanged"
     assert inv(core, pool)
